@@ -495,7 +495,45 @@ fn edge63_script(seed: u64, policy: &str) -> Script {
     Script { name: format!("edge63-{seed}"), policy: policy.to_string(), queues: vec!["e".to_string(), "f".to_string()], anchors: anchors(), steps, expect: None }
 }
 
+/// Long batches behind a gap of positions, truncated in their middle, far from the first record:
+/// an index computed from position differences is off by the width of the gap.
+fn gapbatch_script(seed: u64, policy: &str) -> Script {
+    let mut rng = Rng(seed.wrapping_mul(0x6A9_BA7C).wrapping_add(7));
+    let mut steps = vec![Step::Create { q: 0 }, Step::Create { q: 1 }];
+    let mut payload_seed = seed << 20;
+    let mut next = 0u64;
+    for _ in 0..1 + rng.below(3) {
+        let head = 1 + rng.below(6);
+        let batch: Vec<Payload> = (0..head).map(|_| { payload_seed += 1; Payload { seed: payload_seed, len: rng.below(40) as usize, embed: None } }).collect();
+        steps.push(Step::Append { q: 0, pos: None, batch });
+        next += head;
+        let gap = 1 + rng.below(3);
+        let n = 17 + rng.below(12);
+        let big = rng.chance(40);
+        let batch: Vec<Payload> = (0..n).map(|_| { payload_seed += 1; Payload { seed: payload_seed, len: if big { 6_000 + rng.below(4_000) as usize } else { rng.below(60) as usize }, embed: None } }).collect();
+        steps.push(Step::Append { q: 0, pos: Some(next + gap), batch });
+        let first_of_batch = next + gap;
+        next = first_of_batch + n;
+        if rng.chance(30) {
+            steps.push(Step::Restart);
+        }
+        // keep a suffix of the long batch
+        let keep = 1 + rng.below(4);
+        steps.push(Step::Truncate { q: 0, p: next - 1 - keep });
+        if rng.chance(60) {
+            steps.push(Step::Restart);
+        }
+        payload_seed += 1;
+        steps.push(Step::Append { q: 1, pos: None, batch: vec![Payload { seed: payload_seed, len: 30, embed: None }] });
+    }
+    steps.push(Step::Restart);
+    Script { name: format!("gapbatch-{seed}"), policy: policy.to_string(), queues: vec!["g".to_string(), "h".to_string()], anchors: anchors(), steps, expect: None }
+}
+
 pub fn generate(profile_name: &str, seed: u64, policy: &str) -> Script {
+    if profile_name == "gapbatch" {
+        return gapbatch_script(seed, policy);
+    }
     if profile_name == "edge63" {
         return edge63_script(seed, policy);
     }
